@@ -138,7 +138,11 @@ func WorkerMain(p *Prop, tier string, seed int64, shard, n int, outPath, tracePa
 				// the case goroutine is stuck: report and die
 				rec2 := newRec(tier, seed)
 				rec2.cur = rec.cur
-				rec2.Violate("hang", fmt.Sprintf("case did not terminate within %v", hang))
+				if rec.cur == nil {
+					rec2.Violate("hang", fmt.Sprintf("no progress for %v while enumerating cases (the generator executes the code under test for some properties)", hang))
+				} else {
+					rec2.Violate("hang", fmt.Sprintf("case did not terminate within %v", hang))
+				}
 				s := rec2.summary()
 				s.Done = false
 				b, _ := json.Marshal(s)
@@ -152,6 +156,9 @@ func WorkerMain(p *Prop, tier string, seed int64, shard, n int, outPath, tracePa
 		myIdx := idx
 		idx++
 		if !my {
+			if idx&1023 == 0 {
+				atomic.StoreInt64(&caseStart, time.Now().UnixNano()) // enumeration is making progress
+			}
 			return
 		}
 		if skip[myIdx] {
@@ -166,12 +173,16 @@ func WorkerMain(p *Prop, tier string, seed int64, shard, n int, outPath, tracePa
 		}
 		atomic.StoreInt64(&caseStart, time.Now().UnixNano())
 		rec.runCase(p, c)
-		atomic.StoreInt64(&caseStart, 0)
+		rec.cur = nil
+		atomic.StoreInt64(&caseStart, time.Now().UnixNano())
 	}
+	// the generator itself may execute the code under test (C12 runs schedules to enumerate prefixes): it is watched too
+	atomic.StoreInt64(&caseStart, time.Now().UnixNano())
 	if pi := Catch(func() { p.Gen(g) }); pi != nil {
 		fmt.Fprintf(os.Stderr, "HARNESS ERROR: generator panicked: %s\n%s\n", pi.Value, pi.Stack)
 		return 3
 	}
+	atomic.StoreInt64(&caseStart, 0)
 	writeOut(true, g, idx)
 	return 0
 }
